@@ -544,12 +544,8 @@ func c15AtomicWriter(c *Ctx) {
 	for _, rn := range renames {
 		inst := ssaFuncName(closeFn) + "/os.Rename"
 		// (a) preceded by file.Close
-		dom := false
-		for _, fc := range fcloses {
-			if instrDominates(fc.Instr, rn.Instr) {
-				dom = true
-			}
-		}
+		dom := dominatedByCallUp(p, rn.Instr, isFileClose, 2)
+		_ = fcloses
 		c.Ob(rule, inst+"/after-close", rn.Pos(), dom, true, "os.Rename is dominated by (*os.File).Close: %v", dom)
 		// (b) reachable only on the nil edge of a value depending on both Close and writeErr.Load
 		guardOK := false
@@ -562,8 +558,8 @@ func c15AtomicWriter(c *Ctx) {
 			if ge.Branch == trueIsNonNil {
 				continue // rename on the non-nil edge: not a guard
 			}
-			dc := dependsOnCall(x, isFileClose)
-			dl := dependsOnCall(x, isErrLoad)
+			dc := dependsOnCallUp(p, x, isFileClose, 2)
+			dl := dependsOnCallUp(p, x, isErrLoad, 2)
 			if dc && dl {
 				guardOK = true
 			}
@@ -603,7 +599,7 @@ func c15AtomicWriter(c *Ctx) {
 			continue
 		}
 		x, trueIsNonNil, ok := nilCompare(i.Cond)
-		if !ok || !dependsOnCall(x, isFileClose) || !dependsOnCall(x, isErrLoad) {
+		if !ok || !dependsOnCallUp(p, x, isFileClose, 2) || !dependsOnCallUp(p, x, isErrLoad, 2) {
 			continue
 		}
 		for _, rm := range removes {
@@ -619,11 +615,11 @@ func c15AtomicWriter(c *Ctx) {
 	// temp file behind as a new one; and the rename goes from that name to something else
 	isFileName := func(cc *ssa.CallCommon) bool { return isCall(cc, "os", "File", "Name") }
 	for i, rm := range removes {
-		okArg := len(rm.Call.Args) == 1 && dependsOnCall(rm.Call.Args[0], isFileName)
+		okArg := len(rm.Call.Args) == 1 && dependsOnCallUp(p, rm.Call.Args[0], isFileName, 2)
 		c.Ob(rule, fmt.Sprintf("%s/remove-target#%d", ssaFuncName(closeFn), i+1), rm.Pos(), okArg, true, "os.Remove is given the temporary file's name: %v", okArg)
 	}
 	for i, rn := range renames {
-		okArg := len(rn.Call.Args) == 2 && dependsOnCall(rn.Call.Args[0], isFileName) && !dependsOnCall(rn.Call.Args[1], isFileName)
+		okArg := len(rn.Call.Args) == 2 && dependsOnCallUp(p, rn.Call.Args[0], isFileName, 2) && !dependsOnCall(rn.Call.Args[1], isFileName)
 		c.Ob(rule, fmt.Sprintf("%s/rename-direction#%d", ssaFuncName(closeFn), i+1), rn.Pos(), okArg, true, "os.Rename goes from the temporary file's name to the final path: %v", okArg)
 	}
 	// every return of Close on the atomic failing edges is non-nil: return value depends on the guard value
@@ -661,39 +657,110 @@ func c15AtomicWriter(c *Ctx) {
 		}
 	}
 	c.Ob(rule, ssaFuncName(writeFn)+"/returns-write-error", writeFn.Pos(), okWret, true, "Write returns the error of (*os.File).Write: %v", okWret)
-	// --- Put: temp file created in Dir(final path); final path recorded only in the atomic branch
+	// --- Put: temp file created in Dir(final path); final path recorded only in the atomic branch. The creation may sit
+	// in a helper of the Put method: provenance is followed through the helper's parameters to the caller's arguments
+	// and through its results to what it returns.
+	isDirCall := func(cc *ssa.CallCommon) bool { return isCall(cc, "path/filepath", "", "Dir") }
+	// the value whose directory the temp file is created in: operand of filepath.Dir on the way to the dir argument
+	var dirOperand func(v ssa.Value, depth int) ssa.Value
+	dirOperand = func(v ssa.Value, depth int) ssa.Value {
+		var found ssa.Value
+		sliceBack(v, func(x ssa.Value) bool {
+			if dc, ok := x.(*ssa.Call); ok && isDirCall(&dc.Call) && found == nil {
+				found = dc.Call.Args[0]
+			}
+			return found == nil
+		})
+		if found != nil || depth == 0 {
+			return found
+		}
+		if prm, ok := stripConv(v).(*ssa.Parameter); ok {
+			fn := prm.Parent()
+			callers := p.callersIndex()[fn]
+			for i, q := range fn.Params {
+				if q == prm && len(callers) == 1 && i < len(callers[0].Call.Args) {
+					return dirOperand(callers[0].Call.Args[i], depth-1)
+				}
+			}
+		}
+		return nil
+	}
+	// possible values of a string: itself, φ edges, or - for a result of a package helper - what the helper returns,
+	// with the helper's parameters mapped back to the call's arguments
+	var stopAt ssa.Value // the value looked for: not expanded further
+	var valuesOf func(v ssa.Value, depth int) []ssa.Value
+	valuesOf = func(v ssa.Value, depth int) []ssa.Value {
+		switch x := v.(type) {
+		case *ssa.Phi:
+			var out []ssa.Value
+			for _, e := range x.Edges {
+				out = append(out, valuesOf(e, depth)...)
+			}
+			return out
+		case *ssa.Extract:
+			call, ok := x.Tuple.(*ssa.Call)
+			if !ok || depth == 0 || v == stopAt {
+				return []ssa.Value{v}
+			}
+			callee := call.Call.StaticCallee()
+			if callee == nil || callee.Blocks == nil || callee.Pkg == nil || callee.Pkg.Pkg.Path() != pk.PkgPath {
+				return []ssa.Value{v}
+			}
+			var out []ssa.Value
+			for _, r := range returnsOf(callee) {
+				for _, rv := range valuesOf(r.Results[x.Index], depth-1) {
+					if prm, ok := rv.(*ssa.Parameter); ok {
+						for i, q := range callee.Params {
+							if q == prm && i < len(call.Call.Args) {
+								rv = call.Call.Args[i]
+							}
+						}
+					}
+					out = append(out, rv)
+				}
+			}
+			return out
+		}
+		return []ssa.Value{v}
+	}
+	// the method that owns the put: the one that constructs the writer (a package function given an *os.File)
+	putRoot := putFn
+	if cs := p.callersIndex()[putFn]; len(cs) == 1 && (putFn.Object() == nil || !putFn.Object().Exported()) && putFn.Signature.Recv() == nil {
+		putRoot = cs[0].Instr.Parent()
+	}
 	for _, call := range callsIn(putFn) {
 		if !isCall(call.Call, "os", "", "CreateTemp") {
 			continue
 		}
-		dirArg := call.Call.Args[0]
-		var dirOf ssa.Value
-		if dc, ok := dirArg.(*ssa.Call); ok && isCall(&dc.Call, "path/filepath", "", "Dir") {
-			dirOf = dc.Call.Args[0]
-		}
-		// the constructor call receives (file, finalPath): finalPath's possible values are dirOf's operand or ""
+		dirOf := dirOperand(call.Call.Args[0], 2)
 		okFinal := false
 		desc := "CreateTemp directory is not filepath.Dir(<final path>)"
 		if dirOf != nil {
-			for _, k := range callsIn(putFn) {
+			for _, k := range callsIn(putRoot) {
 				sc := k.Call.StaticCallee()
-				if sc == nil || sc.Pkg == nil || sc.Pkg.Pkg.Path() != pk.PkgPath || len(k.Call.Args) != 2 {
+				if sc == nil || sc.Pkg == nil || sc.Pkg.Pkg.Path() != pk.PkgPath || len(k.Call.Args) != 2 || sc == putFn {
 					continue
 				}
 				for _, a := range k.Call.Args {
-					if phi, ok := a.(*ssa.Phi); ok {
-						hasFinal, onlyEmpty := false, true
-						for _, e := range phi.Edges {
-							if e == dirOf {
-								hasFinal = true
-							} else if cst, ok := e.(*ssa.Const); !ok || cst.Value == nil || cst.Value.ExactString() != `""` {
-								onlyEmpty = false
-							}
+					if b, ok := a.Type().Underlying().(*types.Basic); !ok || b.Kind() != types.String {
+						continue
+					}
+					stopAt = dirOf
+					vals := valuesOf(a, 2)
+					if len(vals) < 2 {
+						continue
+					}
+					hasFinal, onlyEmpty := false, true
+					for _, e := range vals {
+						if e == dirOf {
+							hasFinal = true
+						} else if cst, ok := e.(*ssa.Const); !ok || cst.Value == nil || cst.Value.ExactString() != `""` {
+							onlyEmpty = false
 						}
-						if hasFinal && onlyEmpty {
-							okFinal = true
-							desc = "temp file is created in filepath.Dir(p) and p is the recorded rename target; the non-atomic branch records \"\""
-						}
+					}
+					if hasFinal && onlyEmpty {
+						okFinal = true
+						desc = "temp file is created in filepath.Dir(p) and p is the recorded rename target; the non-atomic branch records \"\""
 					}
 				}
 			}
@@ -702,10 +769,11 @@ func c15AtomicWriter(c *Ctx) {
 		// atomic branch is selected by PutOptions.Atomic()
 		okSel := false
 		for _, ge := range guardingEdges(call.Instr.Block()) {
-			if ge.Branch && dependsOnCall(ge.If.Cond, func(cc *ssa.CallCommon) bool {
+			cv, pos := condPolarity(ge.If.Cond)
+			if ge.Branch == pos && dependsOnCallUp(p, cv, func(cc *ssa.CallCommon) bool {
 				fn := staticCalleeObj(cc)
 				return fn != nil && fn.Name() == "Atomic"
-			}) {
+			}, 2) {
 				okSel = true
 			}
 		}
